@@ -19,7 +19,7 @@ def apply_variant(sources, v):
             return None
         out[rel] = out[rel].replace(old, new)
         try:
-            ast.parse(out[rel])
+            compile(out[rel], rel, "exec", dont_inherit=True)
         except SyntaxError:
             return None
     return out
